@@ -43,8 +43,8 @@ func init() {
 		Controls: []string{"CtlStoreIntoCell", "CtlStoreIntoCellViaCallee"},
 		Run:      ruleIso4})
 	Register(&Rule{ID: "R-ISO-5", Props: []string{"C08"}, Floor: 24,
-		Doc:      "in every lib/query function that publishes a modified view (direct call of ViewMap.Set/Store, ReplaceTemporaryTable, SetTemporaryTable; the ten statement functions are frozen anchors) no return whose error may be non-nil is reachable after a publication call; error values are read edge-sensitively through Phi and result cells; the FileInfo attribute setters do not fail after their first field store and SetTableAttribute runs at most one setter per path. Exemptions, each with a checked side condition: ConvertContextError(ctx.Err()) (ExecuteStatement refuses every later statement once the context is cancelled) and results of RestoreHeaderReferences (Header.Update(_, nil) has no reachable non-nil return)",
-		Controls: []string{"CtlPublishThenFail", "CtlPublishInLoopThenFail"},
+		Doc:      "in every lib/query function that publishes a modified view (direct call of ViewMap.Set/Store, ReplaceTemporaryTable, SetTemporaryTable, or of a helper that does; the ten statement functions are frozen anchors) no return whose error may be non-nil is reachable after a publication call — cancellation returns (ConvertContextError(ctx.Err())) included: a library caller runs each statement under its own context, so a cancelled statement does not end the transaction. Error values are read edge-sensitively through Phi and result cells; the FileInfo attribute setters do not fail after their first field store and SetTableAttribute runs at most one setter per path. Single exemption with a checked side condition: results of RestoreHeaderReferences (Header.Update(_, nil) has no reachable non-nil return)",
+		Controls: []string{"CtlPublishThenFail", "CtlPublishInLoopThenFail", "CtlCancelBetweenPublications"},
 		Run:      ruleIso5})
 	Register(&Rule{ID: "R-ISO-6", Props: []string{"C08", "C11"}, Floor: 1,
 		Doc:      "in every lib/query function that calls Container.CreateHandlerForCreate, each return with a possibly non-nil error that is reachable from the success edge of that call is preceded on every path by a call reaching Container.Close on the new handler (a failed CREATE TABLE leaves neither lock files nor a cache entry)",
@@ -2643,63 +2643,6 @@ func sideRestoreHeader(c *Ctx) bool {
 	return true
 }
 
-// sideCtxCancel: ExecuteStatement refuses to run any statement function once the context is done.
-func sideCtxCancel(c *Ctx, stmts map[*ssa.Function]bool) bool {
-	key := "side condition: a cancelled context ends the transaction"
-	ex := c.Fn("lib/query.(*Processor).ExecuteStatement")
-	if ex == nil {
-		return false
-	}
-	var guards []*ssa.BasicBlock // false successors of ctx.Err() != nil tests whose true edge fails
-	eidx := core.ErrorResultIndex(ex)
-	for _, b := range ex.Blocks {
-		iff, ok := blockTerm(b).(*ssa.If)
-		if !ok || !isCtxErrNonNil(iff.Cond) || len(b.Succs) != 2 {
-			continue
-		}
-		t, f := b.Succs[0], b.Succs[1]
-		okT := true
-		nret := 0
-		for blk := range core.RegionFrom(t) {
-			if r, isRet := blockTerm(blk).(*ssa.Return); isRet && (blk == t || t.Dominates(blk)) {
-				nret++
-				for _, v := range core.ValuesOnPathsFrom(b, t, r.Results[eidx], r) {
-					if core.ClassifyNil(v, r) != core.NonNil {
-						okT = false
-					}
-				}
-			}
-		}
-		if okT && nret > 0 && len(f.Preds) == 1 {
-			guards = append(guards, f)
-		}
-	}
-	n := 0
-	for _, call := range core.Calls(ex) {
-		f := core.StaticCallee(call)
-		if f == nil || !stmts[f] {
-			continue
-		}
-		n++
-		guarded := false
-		for _, g := range guards {
-			if g == call.Block() || g.Dominates(call.Block()) {
-				guarded = true
-			}
-		}
-		if !guarded {
-			c.Bad(key, c.Pos(call), "ExecuteStatement can call "+c.P.FnRef(f)+" without having refused a cancelled context first: the cancellation exemption of R-ISO-5 no longer holds")
-			return false
-		}
-	}
-	if n == 0 {
-		c.Unknown(key, c.FnPos(ex), "ExecuteStatement calls none of the statement functions directly")
-		return false
-	}
-	c.OkN(key, c.FnPos(ex), fmt.Sprintf("all %d calls of statement functions in ExecuteStatement are dominated by the failing branch-out of `ctx.Err() != nil`; the context is never replaced, so every later statement (COMMIT included) is refused and the transaction is rolled back", n), n)
-	return true
-}
-
 func ruleIso5(c *Ctx) {
 	p := c.P
 	frozen := map[*ssa.Function]bool{}
@@ -2709,7 +2652,6 @@ func ruleIso5(c *Ctx) {
 		}
 	}
 	okRestore := sideRestoreHeader(c)
-	okCtx := sideCtxCancel(c, frozen)
 
 	// subjects: every lib/query (and control) function that calls a publication primitive directly
 	isPrim := func(f *ssa.Function) bool { return f != nil && iso5Primitives[p.FnRef(f)] }
@@ -2822,10 +2764,6 @@ func ruleIso5(c *Ctx) {
 				}
 				nret++
 				for _, l := range actx.leaves(r.Results[eidx], r) {
-					if okCtx && l.all(func(v ssa.Value) bool { return isConvertCtxErr(p, v) }) {
-						exempt++
-						continue
-					}
 					if okRestore && l.all(func(v ssa.Value) bool { return isRestoreHeaderResult(p, v) }) {
 						exempt++
 						continue
@@ -2835,6 +2773,12 @@ func ruleIso5(c *Ctx) {
 						if k == core.MaybeNil {
 							what = "a possibly non-nil error"
 						}
+						if l.all(func(v ssa.Value) bool { return isConvertCtxErr(p, v) }) {
+							// no exemption: csvq is also used as a library where every statement
+							// runs under its own context, so a cancelled statement does not end
+							// the transaction; later statements and COMMIT see what was published
+							what = "the cancellation error: a statement cancelled here has already published"
+						}
 						bad = append(bad, fmt.Sprintf("return at %s yields %s (%s)", c.Pos(r), what, valueLabel(l.v)))
 					}
 				}
@@ -2842,7 +2786,7 @@ func ruleIso5(c *Ctx) {
 			if len(bad) > 0 {
 				c.Bad(key, c.Pos(in), "after this publication the statement can still fail: "+strings.Join(dedup(bad), "; ")+" — the caller sees an error but the table already holds the new content")
 			} else {
-				c.Ok(key, c.Pos(in), fmt.Sprintf("%d return(s) reachable after the publication; each returns nil (%d value(s) exempt: cancellation / RestoreHeaderReferences)", nret, exempt))
+				c.Ok(key, c.Pos(in), fmt.Sprintf("%d return(s) reachable after the publication; each returns nil (%d value(s) exempt: RestoreHeaderReferences cannot fail)", nret, exempt))
 			}
 		}
 		if n == 0 {
